@@ -10,37 +10,37 @@ TRUST = [
 
 PROPS = {
     "C05": {
-        "rules": ["KEY", "LOOKUP", "FIFO", "REGISTRATION", "MSGKIND", "IDALLOC", "RSP-VARIANT", "SHORTFORM-EXACT", "THRESH", "HANDSHAKE-QOS2", "BUFFERED", "REPARSE", "MINHDR", "ACCUMULATE"],
+        "rules": ["KEY", "LOOKUP", "FIFO", "REGISTRATION", "MSGKIND", "IDALLOC", "RSP-VARIANT", "SHORTFORM-EXACT", "THRESH", "HANDSHAKE-QOS2", "BUFFERED", "FRAMER-FRESH", "REPARSE", "MINHDR", "ACCUMULATE", "PROPLEN-GUARD", "HANDSHAKE-DUP"],
         "filters": {"IDALLOC": r":rmw|:injective|floor", "SHORTFORM-EXACT": r"AckRx|floor", "THRESH": r"ContextHandle|floor", "HANDSHAKE-QOS2": r"pubrel-after-good|pubrel-always|floor",
                     "ACCUMULATE": r"Suback|Unsuback|AckRx|floor"},
         "explanation": "Static rules over MIR: KEY (symbolic key expressions of tx_action_id / rx_action_id agree per request->acknowledgement pair of the standard, injective bit layout), "
                        "LOOKUP (every completion is sent on the sender removed at linear_search_by_key(awaiting_ack, rx_action_id(same packet))), FIFO (who may mutate Session collections and how), "
                        "REGISTRATION (per-path: written => exactly one registration; refused => none), MSGKIND (message kind / key / channel per handle operation), "
-                       "THRESH / HANDSHAKE-QOS2 on the publish operation (an acknowledgement below 0x80 is a success: QoS 2 goes on to PUBREL / PUBCOMP, i.e. completes on the acknowledgement of its own type).",
+                       "THRESH / HANDSHAKE-QOS2 on the publish operation (an acknowledgement below 0x80 is a success: QoS 2 goes on to PUBREL / PUBCOMP, i.e. completes on the acknowledgement of its own type). PROPLEN-GUARD for the acknowledgement decoders; HANDSHAKE-DUP (the context rewrites nothing but the DUP bit of a stored packet: the bytes the key was computed from are the bytes sent).",
         "not_decided": "the claim over all interleavings of polls and acknowledgements as executions; the rules establish the keyed lookup discipline that makes order irrelevant",
         "assumptions": TRUST,
     },
     "C08": {
-        "rules": ["ACK-TABLE", "ACK-BODY", "ACK-CTRL", "ACK-COUNT", "WRITE", "BUFFERED", "REPARSE", "MINHDR", "REPEATABLE", "HANDLER-AWAITS"],
+        "rules": ["ACK-TABLE", "ACK-BODY", "ACK-CTRL", "ACK-COUNT", "WRITE", "BUFFERED", "FRAMER-FRESH", "REPARSE", "MINHDR", "REPEATABLE", "HANDLER-AWAITS", "PROPLEN-GUARD", "LM", "DECODE-ERR-CAUSE", "MANDATORY"],
         "filters": {"WRITE": r"asyncwrite|write_all|site:ack|floor", "REPEATABLE": r"PublishRx|floor"},
         "explanation": "Per-path effect count and control-dependence analysis of the inbound handler's PUBLISH and PUBREL arms on MIR: reply table, identifier provenance, "
-                       "acknowledgement decisions may depend only on packet type / QoS / packet identifier, exactly the prescribed acknowledgement on every normal path, one write per ack(). The handlers of the context task await nothing but transport writes; no bounded channel towards the application exists (HANDLER-AWAITS).",
+                       "acknowledgement decisions may depend only on packet type / QoS / packet identifier, exactly the prescribed acknowledgement on every normal path, one write per ack(). The handlers of the context task await nothing but transport writes; no bounded channel towards the application exists (HANDLER-AWAITS). LM for AckTx (the acknowledgement on the wire is as long as its Remaining Length says); FRAMER-FRESH reset-outside-set_up (packets that arrived with the CONNACK are still acknowledged); DECODE-ERR-CAUSE / MANDATORY / PROPLEN-GUARD (a well-formed PUBLISH is decoded, hence acknowledged).",
         "not_decided": "nothing material: the property is a per-path effect count in one handler (wire order follows from acknowledgements being awaited in place by the single context task)",
         "assumptions": TRUST,
     },
     "C09": {
-        "rules": ["Q2DEDUP", "ACK-TABLE", "ACK-COUNT", "ACK-CTRL", "FIFO", "ADAPTER", "BUFFERED", "REPARSE", "MINHDR"],
-        "filters": {"FIFO": r"unreleased|floor", "ACK-COUNT": r"arm=Publish|floor", "ACK-CTRL": r"Pubrec|floor"},
+        "rules": ["Q2DEDUP", "ACK-TABLE", "ACK-COUNT", "ACK-CTRL", "FIFO", "ADAPTER", "BUFFERED", "FRAMER-FRESH", "REPARSE", "MINHDR", "DISPATCH", "LM"],
+        "filters": {"DISPATCH": r"key-from-packet-only|floor", "FIFO": r"unreleased|floor", "ACK-COUNT": r"arm=Publish|floor", "ACK-CTRL": r"Pubrec|floor"},
         "explanation": "Necessary structural condition on MIR: delivery of an inbound QoS 2 PUBLISH must be control dependent on a membership test of Session-owned state keyed by the packet identifier, "
-                       "with add on first delivery and removal in the PUBREL arm, record and delivery before any suspension point; PUBREC/PUBCOMP reply table; a re-delivery is still answered with PUBREC (ACK-COUNT / ACK-CTRL of the PUBLISH arm). The release of the identifier does not depend on the PUBREL's reason code (Q2DEDUP release-independent-of-reason).",
+                       "with add on first delivery and removal in the PUBREL arm, record and delivery before any suspension point; PUBREC/PUBCOMP reply table; a re-delivery is still answered with PUBREC (ACK-COUNT / ACK-CTRL of the PUBLISH arm). The release of the identifier does not depend on the PUBREL's reason code (Q2DEDUP release-independent-of-reason). DISPATCH key-from-packet-only (a re-delivery whose identifier was filtered out is not re-routed by a fallback key); LM for AckTx.",
         "not_decided": "history-level exactness of the set once it exists (beyond the add/test/remove discipline)",
         "assumptions": TRUST,
     },
     "C10": {
-        "rules": ["QUOTA-WRITERS", "QUOTA-DEC", "QUOTA-INC", "FIRST-RESPONSE", "DEFAULTS", "SHORTFORM-EXACT", "HANDSHAKE-QOS2", "BUFFERED", "REPARSE", "MINHDR", "DECODE-BE", "HANDLE-ERRS", "FULLFORM"],
+        "rules": ["QUOTA-WRITERS", "QUOTA-DEC", "QUOTA-INC", "FIRST-RESPONSE", "DEFAULTS", "SHORTFORM-EXACT", "HANDSHAKE-QOS2", "BUFFERED", "FRAMER-FRESH", "REPARSE", "MINHDR", "DECODE-BE", "HANDLE-ERRS", "FULLFORM", "RESUME-QUOTA"],
         "filters": {"HANDLE-ERRS": r"publish|floor", "FULLFORM": r"ConnackRx|floor", "FIRST-RESPONSE": r"handle_connack-first|floor", "DEFAULTS": r"ReceiveMaximum|receive_maximum|floor", "SHORTFORM-EXACT": r"AckRx|floor", "HANDSHAKE-QOS2": r"pubrel-always|pubrel-after-good|floor"},
         "explanation": "Who-may-write and guarded-arithmetic rules over Connection.send_quota on MIR: writers, decrement guarded by F != 0 with a refusing F == 0 edge, one decrement before every PUBLISH write, "
-                       "increments bounded by F < M, set of releasing acknowledgements = {PUBACK, PUBCOMP, PUBREC >= 0x80}, release independent of lookup/delivery. R is written by handle_connack only, from the CONNACK's Receive Maximum and nothing else (no other field, constant, min / max) (QUOTA-WRITERS M-only-from-connack); a handle operation never builds QuotaExceeded by itself (HANDLE-ERRS); CONNACK is decoded to its end (FULLFORM).",
+                       "increments bounded by F < M, set of releasing acknowledgements = {PUBACK, PUBCOMP, PUBREC >= 0x80}, release independent of lookup/delivery. R is written by handle_connack only, from the CONNACK's Receive Maximum and nothing else (no other field, constant, min / max) (QUOTA-WRITERS M-only-from-connack); a handle operation never builds QuotaExceeded by itself (HANDLE-ERRS); CONNACK is decoded to its end (FULLFORM). RESUME-QUOTA: nothing records a disconnection on this tree, so the replay cannot run; as soon as something does, the replay must account for the slots of what it re-sends.",
         "not_decided": "numeric claim over concrete long histories (follows from the invariant F + outstanding = M implied by the rules, not separately explored)",
         "assumptions": TRUST,
         "arith_rules": [],
@@ -54,20 +54,20 @@ PROPS = {
         "assumptions": TRUST,
     },
     "C06": {
-        "rules": ["HANDSHAKE-DUP", "HANDSHAKE-QOS2", "THRESH", "MSGKIND", "QUOTA-DEC", "SHORTFORM-EXACT", "LOOKUP", "ENCODE-ONCE", "BUFFERED", "REPARSE", "MINHDR", "WRITE", "LM-PRIM", "KEY"],
+        "rules": ["HANDSHAKE-DUP", "HANDSHAKE-QOS2", "THRESH", "MSGKIND", "QUOTA-DEC", "SHORTFORM-EXACT", "LOOKUP", "ENCODE-ONCE", "BUFFERED", "FRAMER-FRESH", "REPARSE", "MINHDR", "WRITE", "LM-PRIM", "KEY", "PROPLEN-GUARD"],
         "filters": {"QUOTA-DEC": r"quota-read-only-for-publish|zero-edge-refuses|floor", "SHORTFORM-EXACT": r"AckRx|floor", "ENCODE-ONCE": r"publish|floor", "WRITE": r"asyncwrite|write_all|floor",
                     "LM-PRIM": r"UTF8String|Payload|Binary|NonZero|u16|floor"},
         "explanation": "Dominance rules on MIR: the DUP bit is set on the stored copy only (after the completed first write, before the push to the retransmission queue), the PUBREL identifier derives from the received PUBREC, "
-                       "the PUBREL enqueue is dominated by the Continue edge of the `?` over the PUBREC reason check, QoS 0 completes after its write, reason thresholds are exactly 0x80 with Err on the failing side, one PUBLISH enqueue per QoS branch. KEY (the exchange key keeps every bit of the packet identifier: shifts happen on the widened value).",
+                       "the PUBREL enqueue is dominated by the Continue edge of the `?` over the PUBREC reason check, QoS 0 completes after its write, reason thresholds are exactly 0x80 with Err on the failing side, one PUBLISH enqueue per QoS branch. KEY (the exchange key keeps every bit of the packet identifier: shifts happen on the widened value). PROPLEN-GUARD (an acknowledgement with long properties is decoded, not refused).",
         "not_decided": "interleavings with other operations and delayed polling between the two QoS 2 phases (schedules); content equality of topic/payload (C01)",
         "assumptions": TRUST,
     },
     "C07": {
-        "rules": ["SUBREG", "DISPATCH", "ADAPTER", "FIFO", "MULTI", "OWN", "IDALLOC", "UPROPS", "ACCUMULATE", "REPEATABLE", "Q2DEDUP", "BUFFERED", "REPARSE", "MINHDR", "HANDLER-AWAITS"],
+        "rules": ["SUBREG", "DISPATCH", "ADAPTER", "FIFO", "MULTI", "OWN", "IDALLOC", "UPROPS", "ACCUMULATE", "REPEATABLE", "Q2DEDUP", "BUFFERED", "FRAMER-FRESH", "REPARSE", "MINHDR", "HANDLER-AWAITS", "DECODE-ERR-CAUSE", "MANDATORY"],
         "filters": {"HANDLER-AWAITS": r"inbound|bounded-channel|floor", "MULTI": r"PublishRx", "OWN": r"no-explicit-close|sender-never-cloned|floor", "IDALLOC": r"subscription_identifier|floor", "ACCUMULATE": r"PublishRx|floor", "REPEATABLE": r"PublishRx|floor",
                     "Q2DEDUP": r"independent-of-dup|deliver-guarded|deliver-unguarded|deliver-before-suspension|floor"},
         "explanation": "Registration of (subscription identifier, stream) on every path that writes the SUBSCRIBE; delivery receiver = keyed lookup by the received subscription identifier; payload moved whole (no field write, no &mut use); "
-                       "subscriptions removed only on the failed-delivery edge; who-may-mutate table; decision table of SubscribeStream::poll_next by path enumeration. Delivery precedes every suspension point of the arm (Q2DEDUP deliver-before-suspension); the handlers await nothing but transport writes and the queues towards the application are unbounded (HANDLER-AWAITS).",
+                       "subscriptions removed only on the failed-delivery edge; who-may-mutate table; decision table of SubscribeStream::poll_next by path enumeration. Delivery precedes every suspension point of the arm (Q2DEDUP deliver-before-suspension); the handlers await nothing but transport writes and the queues towards the application are unbounded (HANDLER-AWAITS). UPROPS accessors; DISPATCH key-from-packet-only (the lookup key is the Subscription Identifier of the PUBLISH and nothing of the session); DECODE-ERR-CAUSE / MANDATORY (an alias-only PUBLISH is accepted).",
         "not_decided": "order / exactly-once over histories with lagging or dropped streams (executions); a PUBLISH carrying several Subscription Identifiers (known finding, codec keeps one)",
         "assumptions": TRUST,
     },
@@ -80,10 +80,10 @@ PROPS = {
         "assumptions": TRUST,
     },
     "C13": {
-        "rules": ["EXITS", "EXITS-EXPLICIT", "EXITS-OK", "EXITS-END", "FIRST-RESPONSE", "THRESH", "CONV", "WRITE", "SHORTFORM-EXACT", "REPARSE", "BUFFERED", "MINHDR", "RXHDR", "FRAMER-FRESH", "OWN", "FULLFORM"],
-        "filters": {"FULLFORM": r"ConnackRx|floor", "WRITE": r"WRITE:site:|floor", "SHORTFORM-EXACT": r"DisconnectRx|floor", "OWN": r"no-explicit-close|floor"},
+        "rules": ["EXITS", "EXITS-EXPLICIT", "EXITS-OK", "EXITS-END", "FIRST-RESPONSE", "THRESH", "CONV", "WRITE", "SHORTFORM-EXACT", "REPARSE", "BUFFERED", "MINHDR", "RXHDR", "FRAMER-FRESH", "OWN", "FULLFORM", "PROPLEN-GUARD", "DECODE-ERR-CAUSE", "MANDATORY"],
+        "filters": {"FULLFORM": r"ConnackRx|floor", "WRITE": r"WRITE:site:|floor", "SHORTFORM-EXACT": r"DisconnectRx|floor", "OWN": r"no-explicit-close|context-holds-no-request-sender|floor"},
         "explanation": "Complete table of the exits of Context::run (recursively through handle_packet / handle_message / ack / retransmit), each classified by the residual error type of its `?` and what produced it; explicit returns; "
-                       "required Ok(()) exits and what they are control dependent on; the end of the request queue / packet stream ends run() at once (EXITS-END); decoders of run()-phase packets test the whole fixed-header byte (RXHDR); buffered packets are served before the next read (BUFFERED); first-response table of connect()/authorize(); reason thresholds; From<..> for MqttError variant table. No handle operation closes the request queue (OWN no-explicit-close); framing state never outlives its transport, so the CONNACK of a new connection is framed from its own bytes (FRAMER-FRESH); CONNACK is decoded to its end (FULLFORM).",
+                       "required Ok(()) exits and what they are control dependent on; the end of the request queue / packet stream ends run() at once (EXITS-END); decoders of run()-phase packets test the whole fixed-header byte (RXHDR); buffered packets are served before the next read (BUFFERED); first-response table of connect()/authorize(); reason thresholds; From<..> for MqttError variant table. No handle operation closes the request queue (OWN no-explicit-close); framing state never outlives its transport, so the CONNACK of a new connection is framed from its own bytes (FRAMER-FRESH); CONNACK is decoded to its end (FULLFORM). OWN context-holds-no-request-sender (HandleClosed is reachable: the context keeps no handle); DECODE-ERR-CAUSE / MANDATORY / PROPLEN-GUARD (run() ends with a codec error for undecodable input only).",
         "not_decided": "'at every reachable session state': the exits do not consult session state, which is stated rather than explored",
         "assumptions": TRUST,
     },
@@ -101,10 +101,10 @@ PROPS = {
         "assumptions": TRUST,
     },
     "C17": {
-        "rules": ["RESUME-PAIR", "RESUME-EXPIRY", "RESUME-ORDER", "HANDSHAKE-DUP", "FIFO", "LEGAL-ARM", "DEFAULTS", "KEY"],
+        "rules": ["RESUME-PAIR", "RESUME-EXPIRY", "RESUME-ORDER", "HANDSHAKE-DUP", "FIFO", "LEGAL-ARM", "DEFAULTS", "KEY", "SEI-ORDER", "RESUME-QUOTA"],
         "filters": {"FIFO": r"retrasmit_queue|floor", "LEGAL-ARM": r"ConnackRx:SessionExpiryInterval|floor", "DEFAULTS": r"SessionExpiryInterval|session_expiry|floor"},
         "explanation": "Pairing of every class pushed to the retransmission queue with a keyed removal in the arm of its acknowledgement; normalised truth table of session_expired; dominance/ordering of is_reconnect, session_expired, reset_session, retransmit and the select loop in run(); "
-                       "retransmit iterates front to back and awaits each unchanged write; stored copy carries DUP. The replay write is decided by the iteration alone (RESUME-ORDER replay-unconditional); KEY (removal by a key that keeps every bit of the identifier).",
+                       "retransmit iterates front to back and awaits each unchanged write; stored copy carries DUP. The replay write is decided by the iteration alone (RESUME-ORDER replay-unconditional); KEY (removal by a key that keeps every bit of the identifier). SEI-ORDER (the requested session expiry interval is stored before the CONNACK is handled, so what the broker grants decides expiry); RESUME-QUOTA.",
         "not_decided": "behaviour over disconnection points x histories; wall-clock arithmetic",
         "assumptions": TRUST,
     },
@@ -120,9 +120,9 @@ PROPS = {
         "filters": {"PANIC": r"packet_stream|VarSizeInt as std::convert::TryFrom<&\[u8\]>|ledger-link:MINHDR"},
     },
     "C04": {
-        "rules": ["PANIC", "DECODE-WITNESS", "VARIANT-DOMAIN", "VARINT-GUARD", "VARINT-ERR", "FIRST-RESPONSE", "EXITS", "WRITE", "EOS", "PENDING", "BUFFERED", "REPARSE", "MINHDR", "REARM", "DECODE-LOOP", "FRAMER-FRESH"],
+        "rules": ["PANIC", "DECODE-WITNESS", "VARIANT-DOMAIN", "VARINT-GUARD", "VARINT-ERR", "FIRST-RESPONSE", "EXITS", "WRITE", "EOS", "PENDING", "BUFFERED", "REPARSE", "MINHDR", "REARM", "DECODE-LOOP", "FRAMER-FRESH", "CHUNK"],
         "explanation": "Panic ledger: every panic-capable site (MIR asserts, unwrap/expect, panic!/unreachable!, indexing, curated panicking bytes API) in bodies reachable from the inbound roots is enumerated and discharged by a dominating guard, a direct length comparison, "
-                       "constant folding, the in-memory-length argument or a named ledger entry; fixed-width decoders carry a length witness; partial functions over packet enums are called inside their domain; first-response and run() exits are error returns; transport faults propagate; a decode loop cannot spin on an undecodable item (DECODE-LOOP). An error reporting a reason code is built only under a failing edge of the threshold test (THRESH error-only-when-failed, linked from the ledger entries of the debug assertions in the From<..Rx> for ..Error conversions).",
+                       "constant folding, the in-memory-length argument or a named ledger entry; fixed-width decoders carry a length witness; partial functions over packet enums are called inside their domain; first-response and run() exits are error returns; transport faults propagate; a decode loop cannot spin on an undecodable item (DECODE-LOOP). An error reporting a reason code is built only under a failing edge of the threshold test (THRESH error-only-when-failed, linked from the ledger entries of the debug assertions in the From<..Rx> for ..Error conversions). CHUNK (the decoded value is the delimited bytes themselves, so advancing by its byte_len() cannot run past the input; every string component is validated before an accessor unwraps it).",
         "not_decided": "non-panicking misbehaviour on garbage beyond what EXITS classifies; panics inside dependencies not in the curated list; ledger entries are reasoned, not proved (each is one named site with a reason)",
         "assumptions": TRUST + ["curated list of panicking methods of the bytes crate (advance, split_to, split_off, get_*, copy_to_bytes, slice)"],
         "arith_rules": ["PANIC"],
@@ -130,7 +130,7 @@ PROPS = {
     "C16": {
         "rules": ["PENDING", "REARM", "OWN", "WRITE", "ADAPTER", "PENDING-PURE", "HANDLER-AWAITS"],
         "explanation": "Waker contract on MIR: both hand-written poll functions return Pending only in states where an inner poll returned Pending for the same task context; run() re-arms each select! future in the arm that consumed it; "
-                       "handle operations await only their own oneshot receiver; write futures are awaited in place; the stream adapter forwards Pending from the inner receiver. Paths of RxPacketStream::poll_next that return Pending assign no field of the stream and touch the buffer only through resize and the read itself (PENDING-PURE); the handlers await nothing but transport writes (HANDLER-AWAITS).",
+                       "handle operations await only their own oneshot receiver; write futures are awaited in place; the stream adapter forwards Pending from the inner receiver. Paths of RxPacketStream::poll_next that return Pending assign no field of the stream and touch the buffer only through resize and the read itself (PENDING-PURE); the handlers await nothing but transport writes (HANDLER-AWAITS). OWN context-holds-no-request-sender.",
         "not_decided": "trace equality across polling disciplines (executions under different schedulers); idempotence of the buffer bookkeeping of RxPacketStream under a spurious poll (runtime state)",
         "assumptions": TRUST,
     },
@@ -139,17 +139,17 @@ PROPS = {
         "filters": {"LEGAL": r"LEGAL:tx:", "MANDATORY": r"Tx|floor"},
         "explanation": "Encoder structure on MIR, for all optional fields / packet types / call sites at once: length mirror (every field written is counted in the remaining / property length it belongs to and vice versa, every counted length prefix is written, "
                        "measured types = written types), item order against the standard, bit layouts of the flag bytes, evaluated packet / property identifiers and fixed headers, legal property sets, mandatory parts (generated build() + validate() error paths), "
-                       "option setters forward to the builder field of the same name and return Self, single writer (write_all over the whole slice, awaited in place), one encode per message buffer, exactly one write per non-refused request, VarSizeInt thresholds; for every primitive with a straight-line encoder the bytes appended by encode() equal byte_len() as a symbolic sum over its fields (LM-PRIM). The option setters carry the caller's value through moves and checked / widening conversions only (OPTS-LOSSLESS: no floating point, no narrowing cast, no arithmetic on the value); the variable byte integer encoder writes byte j as bits 7j..7j+6 with the continuation bit on all but the last byte, decided by normalising the byte expressions (VARINT-ENC).",
+                       "option setters forward to the builder field of the same name and return Self, single writer (write_all over the whole slice, awaited in place), one encode per message buffer, exactly one write per non-refused request, VarSizeInt thresholds; for every primitive with a straight-line encoder the bytes appended by encode() equal byte_len() as a symbolic sum over its fields (LM-PRIM). The option setters carry the caller's value through moves and checked / widening conversions only (OPTS-LOSSLESS: no floating point, no narrowing cast, no arithmetic on the value); the variable byte integer encoder writes byte j as bits 7j..7j+6 with the continuation bit on all but the last byte, decided by normalising the byte expressions (VARINT-ENC). Lengths reach their length fields without narrowing casts (LM-7) and a length prefix is written whatever its value (LM-3 unconditional).",
         "not_decided": "that decoding the bytes yields exactly the values supplied for every value (round-trip equality over runtime values, boundary lengths 127/128/16383/...): primitives are covered by the existing boundary tests, the composition is what the rules decide",
         "assumptions": TRUST,
         "filters": {"LEGAL": r"LEGAL:tx:", "MANDATORY": r"Tx|floor"},
     },
     "C02": {
-        "rules": ["LEGAL", "LEGAL-ARM", "IDS", "REASONS", "DEFAULTS", "MANDATORY", "SHORTFORM", "SHORTFORM-EXACT", "MULTI", "ACCESSOR", "PUBID", "BITS", "REPARSE", "VARINT-ERR", "VARINT-OK", "UTF8-BYTES", "ACCUMULATE", "REPEATABLE", "UPROPS", "DECODE-BE", "DECODE-LOOP", "FRAMER-FRESH", "FULLFORM"],
+        "rules": ["LEGAL", "LEGAL-ARM", "IDS", "REASONS", "DEFAULTS", "MANDATORY", "SHORTFORM", "SHORTFORM-EXACT", "MULTI", "ACCESSOR", "PUBID", "BITS", "REPARSE", "VARINT-ERR", "VARINT-OK", "UTF8-BYTES", "ACCUMULATE", "REPEATABLE", "UPROPS", "DECODE-BE", "DECODE-LOOP", "FRAMER-FRESH", "FULLFORM", "PROPLEN-GUARD", "CHUNK", "DECODE-ERR-CAUSE"],
         "filters": {"LEGAL": r"LEGAL:rx:|floor", "MANDATORY": r"Rx|floor", "BITS": r"publish-decode|type-nibble|floor"},
         "explanation": "Decoder structure on MIR: accepted property set per receive decoder = the standard's legal set (order-free property loop), wire type per property identifier, reason enums = TryFrom<u8> maps = the standard's code sets, "
                        "defaults of absent properties, mandatory parts of inbound packets, shortened forms (tail decodes do not dominate every success exit), multiplicity (collections for repeatable properties), "
-                       "accessors read exactly the field they are named after, PUBLISH header masks / shifts, packet identifier iff QoS > 0; the string decoders validate with the standard library and refuse no string for a byte that occurs in well-formed multi-byte UTF-8 (byte predicates evaluated on all 256 values); builder setters of repeatable items accumulate (ACCUMULATE), a repeatable property is never a reason to refuse the packet (REPEATABLE), UserProperties is append-only (UPROPS), u16 / u32 are assembled big endian (DECODE-BE), decode loops end on the first undecodable item (DECODE-LOOP). The packets without a shortened form are decoded to their end on every success path (FULLFORM); framing state never outlives its transport (FRAMER-FRESH).",
+                       "accessors read exactly the field they are named after, PUBLISH header masks / shifts, packet identifier iff QoS > 0; the string decoders validate with the standard library and refuse no string for a byte that occurs in well-formed multi-byte UTF-8 (byte predicates evaluated on all 256 values); builder setters of repeatable items accumulate (ACCUMULATE), a repeatable property is never a reason to refuse the packet (REPEATABLE), UserProperties is append-only (UPROPS), u16 / u32 are assembled big endian (DECODE-BE), decode loops end on the first undecodable item (DECODE-LOOP). The packets without a shortened form are decoded to their end on every success path (FULLFORM); framing state never outlives its transport (FRAMER-FRESH). The length-prefixed primitives keep exactly the bytes their prefix delimits and validate that very cut (CHUNK); a decoder refuses for framing reasons only, never for the content of a field it has just decoded (DECODE-ERR-CAUSE); the property length is refused exactly when it exceeds what is left (PROPLEN-GUARD); every received user property is stored and every accessor sees all of them (UPROPS push-unconditional / accessors-see-all).",
         "not_decided": "numeric / value equality of decoded primitives over all inputs, UTF-8 validation itself (std), payloads crossing the receive buffer (runtime values; primitives have boundary tests)",
         "assumptions": TRUST,
         "filters": {"LEGAL": r"LEGAL:rx:|floor", "MANDATORY": r"Rx|floor", "BITS": r"publish-decode|type-nibble|floor"},
